@@ -253,6 +253,12 @@ func one(id int, dir string) O {
 		yerr = jyaml.Unmarshal(ys, &sy)
 	}
 	add("yaml", &sy, yerr, trap(func() error { return sy.Compile(ctx, nil, true) }))
+	// the same YAML document as a file in a spec directory, for cmd/mcrew's Service.GetSpec (read by the overlay driver)
+	if exportDir != "" && yerr == nil {
+		check(os.WriteFile(filepath.Join(exportDir, "specs", "spec"+strconv.Itoa(id)+".yaml"), ys, 0644))
+		line, _ := json.Marshal(O{"id": id, "name": "spec" + strconv.Itoa(id), "seqs": seqs})
+		exportIn.Write(append(line, '\n'))
+	}
 	// patterns as JSON text under the JSON pattern syntax (only when the syntax is not the unknown under test)
 	if unknown != "patternSyntax" {
 		sp := withJSONPatterns(mk())
@@ -371,8 +377,85 @@ func malformed(id int) O {
 	return O{"id": id, "kind": "malformed", "doc": doc, "results": res, "raw": enc.Canon(O{"doc": doc})}
 }
 
+var exportDir string
+var exportIn *os.File
+
+// merge adds what cmd/mcrew's GetSpec made of each exported YAML file (plain JSON written by the overlay driver) as one
+// more rendering of its case
+func merge(casesPath, getspecPath, outPath string) {
+	type step struct {
+		Outcome string                 `json:"outcome"`
+		Node    string                 `json:"node"`
+		Bs      map[string]interface{} `json:"bs"`
+		None    bool                   `json:"none"`
+		Emitted []interface{}          `json:"emitted"`
+	}
+	type res struct {
+		Id   int      `json:"id"`
+		Err  string   `json:"err"`
+		Seqs [][]step `json:"seqs"`
+	}
+	by := map[int]res{}
+	g, err := os.Open(getspecPath)
+	check(err)
+	sc := bufio.NewScanner(g)
+	sc.Buffer(make([]byte, 1<<20), 1<<28)
+	for sc.Scan() {
+		var r res
+		check(json.Unmarshal(sc.Bytes(), &r))
+		by[r.Id] = r
+	}
+	g.Close()
+	in, err := os.Open(casesPath)
+	check(err)
+	defer in.Close()
+	f, err := os.Create(outPath)
+	check(err)
+	w := bufio.NewWriterSize(f, 1<<20)
+	e := json.NewEncoder(w)
+	e.SetEscapeHTML(false)
+	sc = bufio.NewScanner(in)
+	sc.Buffer(make([]byte, 1<<20), 1<<28)
+	for sc.Scan() {
+		var c map[string]interface{}
+		check(json.Unmarshal(sc.Bytes(), &c))
+		if r, have := by[int(c["id"].(float64))]; have && c["kind"] == "load" {
+			rep := O{"repr": "mcrew-getspec", "load": "", "compile": "", "behaviours": T{}}
+			if r.Err != "" {
+				rep["compile"] = "error"
+			} else {
+				bh := T{}
+				for _, sq := range r.Seqs {
+					steps := T{}
+					for _, st := range sq {
+						em := T{}
+						for _, x := range st.Emitted {
+							em = append(em, enc.V(x))
+						}
+						if st.None {
+							steps = append(steps, O{"outcome": st.Outcome, "state": T{"none"}, "emitted": T{}})
+						} else {
+							steps = append(steps, O{"outcome": st.Outcome, "state": normState(&core.State{NodeName: st.Node, Bs: match.Bindings(st.Bs)}), "emitted": em})
+						}
+					}
+					bh = append(bh, steps)
+				}
+				rep["behaviours"] = bh
+			}
+			c["reps"] = append(c["reps"].([]interface{}), rep)
+		}
+		check(e.Encode(c))
+	}
+	w.Flush()
+	f.Close()
+}
+
 func main() {
 	log.SetOutput(io.Discard)
+	if os.Args[1] == "merge" {
+		merge(os.Args[2], os.Args[3], os.Args[4])
+		return
+	}
 	n, _ := strconv.Atoi(os.Args[2])
 	seed, _ := strconv.Atoi(os.Args[3])
 	rng = rand.New(rand.NewSource(int64(seed)))
@@ -384,6 +467,14 @@ func main() {
 	dir, err := os.MkdirTemp("", "verif-loader")
 	check(err)
 	defer os.RemoveAll(dir)
+	if exportDir = os.Getenv("LOADER_EXPORT"); exportDir != "" && os.Args[1] == "gen" {
+		check(os.MkdirAll(filepath.Join(exportDir, "specs"), 0755))
+		exportIn, err = os.Create(filepath.Join(exportDir, "getspec_in.ndjson"))
+		check(err)
+		defer exportIn.Close()
+	} else {
+		exportDir = ""
+	}
 	for id := 1; id <= n; id++ {
 		if os.Args[1] == "malformed" {
 			check(e.Encode(malformed(id)))
